@@ -203,7 +203,8 @@ pub fn plan_item(i: &Item, t: &mut Tape) -> ItemPlan {
         steps.push(ItemStep::IntoOwned);
     }
     for _ in 0..n_stale {
-        let len = t.choose(6);
+        // stale prefixes: short, or at / beyond what a PRIV item can hold (overwritten later)
+        let len = [0usize, 1, 2, 3, 4, 5, 254, 255, 260][t.choose(9)];
         let v = t.value().to_le_bytes();
         steps.push(ItemStep::Prefix(v.iter().cycle().take(len).copied().collect(), bytes_form(t)));
         if t.flag(1, 6) {
@@ -292,7 +293,8 @@ fn plan_fci(f: &Fci, t: &mut Tape) -> FciPlan {
             for _ in 0..n {
                 let len = t.choose(7);
                 let v = t.value().to_le_bytes();
-                qd.push(RpsiStep::Data { bits: v.iter().cycle().take(len).copied().collect(), overrun: t.choose(9) as u8, form: bytes_form(t), owned: t.flag(1, 2) });
+                // (stale overruns up to 11: more than the 8 bits of a byte is invalid, and overwritten)
+                qd.push(RpsiStep::Data { bits: v.iter().cycle().take(len).copied().collect(), overrun: t.choose(12) as u8, form: bytes_form(t), owned: t.flag(1, 2) });
             }
             if !(n == 0 && bits.is_empty() && *overrun == 0 && t.flag(1, 3)) {
                 qd.push(RpsiStep::Data { bits: bits.clone(), overrun: *overrun, form: bytes_form(t), owned: t.flag(1, 2) });
@@ -317,7 +319,8 @@ fn plan_fci(f: &Fci, t: &mut Tape) -> FciPlan {
 }
 
 fn stale_string(t: &mut Tape) -> String {
-    let n = t.choose(9);
+    // mostly short; sometimes at / beyond the 255-byte limit (an invalid value that is overwritten)
+    let n = [0usize, 1, 2, 3, 4, 5, 7, 8, 255, 256, 300][t.choose(11)];
     let v = t.value();
     (0..n).map(|k| (b'a' + ((v >> (k % 4 * 8)) as u8 % 26)) as char).collect()
 }
